@@ -30,6 +30,8 @@ def run(ctx):
                       "produced RuntimeError is sent and the loop goes on with the next path; unwatching precedes watching")
     ctx.rule("R13.7", "frame condition: the fs worker carries no state from one round to the next other than watcher, watcher_type, the shadow set "
                       "and the change subscription (so nothing read from the configuration can go stale across rounds)")
+    ctx.rule("R13.8", "keyboard source: (enabled, not watching) -> spawn the stdin watcher and keep its close handle; (disabled, watching) -> take the handle "
+                      "and send the close signal; otherwise nothing")
     ctx.rule("R13.4", "an empty configured path set releases the watcher; WatchedPath.recursive selects RecursiveMode::Recursive / NonRecursive")
     ctx.rule("R13.5", "lock scope: in the watchexec crate no RwLock/Mutex guard is live across an await or a call through a user-supplied Fn")
     ctx.rule("R13.6", "every public Config setter replaces the value and then calls signal_change")
@@ -255,6 +257,40 @@ def run(ctx):
                     fail="the recursion flag of a watched path is no longer mapped to RecursiveMode::Recursive / NonRecursive")
 
     lock_scope(ctx, "R13.5")
+
+    # ---- R13.8 keyboard worker table
+    try:
+        kw = ctx.anchor_one("R13.8", "keyboard worker coroutine",
+                            [c for c in facts.children(ctx.anchor_fn("R13.8", "watchexec::sources::keyboard::worker")) if c.kind == "coroutine"])
+        ms = [m for m in thir.find(thir.root(kw), "match") if m["src"] == "Normal" and m["sty"].startswith("(bool, &core::option::Option<tokio::sync::oneshot::Sender")]
+        if len(ms) != 1:
+            ctx.violation("R13.8", "floor:keyboard-match", "the keyboard worker no longer matches on (enabled, close handle)", kw.loc(kw.line))
+        else:
+            m = ms[0]
+            sc = pathx.desc(m["e"]).replace("^", "")
+            ctx.require(sc == "(Changeable::get(config.keyboard_events), send_close)", "R13.8", "keyboard-scrutinee", "the decision reads config.keyboard_events and the close handle",
+                        kw.loc(m["l"]), detail=sc)
+            OPT = "core::option::Option"
+            cases = {"enable": (True, ("v", OPT, "None", {})), "disable": (False, ("v", OPT, "Some", {"0": thir.ANY})),
+                     "keep-on": (True, ("v", OPT, "Some", {"0": thir.ANY})), "keep-off": (False, ("v", OPT, "None", {}))}
+            for name, (en, st) in cases.items():
+                i = thir.first_arm(m, ("t", [("b", en), st]))
+                if i is None:
+                    ctx.incomplete("R13.8", "keyboard:" + name, "undetermined arm", kw.loc(m["l"]))
+                    continue
+                body = m["arms"][i]["b"]
+                calls = [strip_generics(c).split("::")[-2] + "::" + strip_generics(c).split("::")[-1] for c, _ in thir.calls_in(body) if not pathx.is_tracing(_)]
+                assigns = [(pathx.desc(a["a"]).replace("^", ""), pathx.desc(a["b"])) for a in thir.find(body, "assign")]
+                if name == "enable":
+                    ok = "spawn::spawn" in calls and "keyboard::watch_stdin" in calls and ("send_close", "Some{0: close_s}") in assigns
+                elif name == "disable":
+                    ok = "Option::take" in calls and "Sender::send" in calls and "spawn::spawn" not in calls
+                else:
+                    ok = not calls and not assigns
+                ctx.require(ok, "R13.8", "keyboard:" + name, "keyboard events %s" % name, kw.loc(m["arms"][i]["l"]), detail="%s %s" % (calls, assigns),
+                            fail="keyboard source, case %s: does %s %s" % (name, calls, assigns))
+    except Skip:
+        pass
 
     # ---- R13.6 setters
     try:
